@@ -361,6 +361,10 @@ def run(ctx):
             # pairs of messages: interleaved deliveries
             red = [m for m in alpha if m[2] is True or m[3] is not None
                                        or isinstance(m[2], str)]
+            # of the command-port entries the two unflagged ones go into pairs
+            red = [m for m in red if not (isinstance(m[2], str) and
+                                          m[2].startswith('port') and
+                                          not m[2].endswith(':none'))]
             if ctx.quick or n_pilots > 1:
                 # round trips double the messages in flight: singles only
                 red = [m for m in red if m[2] != 'rpc_round']
